@@ -84,8 +84,10 @@ type EnvConfig struct {
 
 // ShardEnv is the real factory + container of one shard, bound to the Env's current execution.
 type ShardEnv struct {
-	ID        uint32
-	Factory   interface{ GasScheduleChange(map[string]map[string]uint64) }
+	ID      uint32
+	Factory interface {
+		GasScheduleChange(map[string]map[string]uint64)
+	}
 	Container vmcommon.BuiltInFunctionContainer
 	coord     *coordinator
 	adapter   *adapter
@@ -125,7 +127,9 @@ type Notifier struct {
 }
 
 // RegisterNotifyHandler implements vmcommon.EpochNotifier.
-func (n *Notifier) RegisterNotifyHandler(h vmcommon.EpochSubscriberHandler) { n.Subs = append(n.Subs, h) }
+func (n *Notifier) RegisterNotifyHandler(h vmcommon.EpochSubscriberHandler) {
+	n.Subs = append(n.Subs, h)
+}
 
 // IsInterfaceNil implements vmcommon.EpochNotifier.
 func (n *Notifier) IsInterfaceNil() bool { return n == nil }
@@ -425,15 +429,15 @@ func (a *adapter) SaveAccount(account vmcommon.AccountHandler) error {
 	return nil
 }
 
-func (a *adapter) RemoveAccount(_ []byte) error         { return fmt.Errorf("not supported") }
-func (a *adapter) Commit() ([]byte, error)              { return nil, nil }
-func (a *adapter) JournalLen() int                      { return 0 }
-func (a *adapter) RevertToSnapshot(_ int) error         { return nil }
-func (a *adapter) GetNumCheckpoints() uint32            { return 0 }
-func (a *adapter) GetCode(_ []byte) []byte              { return nil }
-func (a *adapter) RootHash() ([]byte, error)            { return nil, nil }
-func (a *adapter) RecreateTrie(_ []byte) error          { return nil }
-func (a *adapter) IsInterfaceNil() bool                 { return a == nil }
+func (a *adapter) RemoveAccount(_ []byte) error { return fmt.Errorf("not supported") }
+func (a *adapter) Commit() ([]byte, error)      { return nil, nil }
+func (a *adapter) JournalLen() int              { return 0 }
+func (a *adapter) RevertToSnapshot(_ int) error { return nil }
+func (a *adapter) GetNumCheckpoints() uint32    { return 0 }
+func (a *adapter) GetCode(_ []byte) []byte      { return nil }
+func (a *adapter) RootHash() ([]byte, error)    { return nil, nil }
+func (a *adapter) RecreateTrie(_ []byte) error  { return nil }
+func (a *adapter) IsInterfaceNil() bool         { return a == nil }
 
 // ---------------------------------------------------------------------------------------------
 
